@@ -128,8 +128,12 @@ class StrShim(metaclass=_Meta):
             return SymText("dec", x)
         if isinstance(x, (SymStr, SymText)):
             return x
-        if isinstance(x, (SymFloat, _SB)):
-            raise Unsupported("str() of a symbolic float / byte string")
+        if isinstance(x, _SB):
+            # "b'..'" of symbolic bytes: opaque text that can be formatted into a message (as a
+            # placeholder; the concolic replay prints the real one) but not compared or measured
+            return SymText("bytesrepr", x)
+        if isinstance(x, SymFloat):
+            raise Unsupported("str() of a symbolic float")
         return str(x)
 
 
